@@ -5,6 +5,7 @@
 #include <string>
 #include <vector>
 #include <algorithm>
+#include <functional>
 #include <sstream>
 
 namespace refvol {
@@ -21,16 +22,40 @@ const uint16_t CompUncompressed = 0x100, CompLZH = 0x103;
 const uint32_t PadFlag = 0x80000000u;
 
 inline int lower(int c) { return (c >= 'A' && c <= 'Z') ? c + 32 : c; }
-// _stricmp order: compare lower-cased bytes (unsigned), shorter first on a common prefix
+// Where bytes >= 0x80 rank relative to ASCII and to each other is not fixed by any statement ("case-insensitive order"): comparing plain chars puts
+// them before ASCII, unsigned chars after it, and ::tolower on a plain char puts 0x80..0xFE after ASCII but 0xFF (== EOF) before everything.  All of
+// these are case-insensitive orders under which a binary search by the same rule finds every member.  The reference comparator icmp() ranks them
+// unsigned; listings WRITTEN BY THE LIBRARY are judged by order_consistent(): strictly ascending under SOME byte ranking that folds ASCII case, keeps
+// the ASCII bytes in their numeric order and puts a name after its proper prefixes.
+inline int key(unsigned char c) { return lower(c); }
+// _stricmp order: compare lower-cased bytes, shorter first on a common prefix
 inline int icmp(const std::string& a, const std::string& b) {
 	size_t n = std::min(a.size(), b.size());
 	for (size_t i = 0; i < n; ++i) {
-		int x = lower((unsigned char)a[i]), y = lower((unsigned char)b[i]);
+		int x = key((unsigned char)a[i]), y = key((unsigned char)b[i]);
 		if (x != y) return x < y ? -1 : 1;
 	}
 	return a.size() == b.size() ? 0 : (a.size() < b.size() ? -1 : 1);
 }
 inline bool ieq(const std::string& a, const std::string& b) { return icmp(a, b) == 0; }
+inline bool has_high_byte(const std::string& s) { for (unsigned char c : s) if (c >= 0x80) return true; return false; }
+// "" when the listing is strictly ascending under some case-insensitive byte order (see above), else what is wrong
+inline std::string order_consistent(const std::vector<std::string>& names) {
+	std::vector<std::vector<int>> adj(256);
+	for (size_t k = 1; k < names.size(); ++k) {
+		const std::string& a = names[k - 1]; const std::string& b = names[k]; size_t n = std::min(a.size(), b.size()), i = 0;
+		while (i < n && lower((unsigned char)a[i]) == lower((unsigned char)b[i])) ++i;
+		if (i == n) { if (!(a.size() < b.size())) return "names '" + a + "' and '" + b + "' are equal ignoring case, or the longer one comes before its own prefix"; continue; }
+		int x = lower((unsigned char)a[i]), y = lower((unsigned char)b[i]);
+		if (x < 128 && y < 128) { if (!(x < y)) return "names '" + a + "' and '" + b + "' not in ascending case-insensitive order"; }
+		else adj[size_t(x)].push_back(y);
+	}
+	// the constraints on bytes >= 0x80 together with 0 < 1 < ... < 127 must be free of cycles
+	std::vector<int> col(256, 0); bool cyc = false;
+	std::function<void(int)> dfs = [&](int v) { col[size_t(v)] = 1; auto visit = [&](int w) { if (col[size_t(w)] == 1) cyc = true; else if (!col[size_t(w)]) dfs(w); }; for (int w : adj[size_t(v)]) visit(w); if (v < 127) visit(v + 1); col[size_t(v)] = 2; };
+	for (int v = 0; v < 256 && !cyc; ++v) if (!col[size_t(v)]) dfs(v);
+	return cyc ? "the listing is not ascending under any one ranking of its bytes >= 0x80" : "";
+}
 
 struct Member {
 	std::string name;
@@ -152,10 +177,9 @@ inline std::string parse_strict(const std::vector<uint8_t>& b, std::vector<Entry
 	if (expectNameOff != stl) { e << "name table length " << stl << " != sum of names " << expectNameOff; return e.str(); }
 	if (expectBlock != b.size()) { e << "last block ends at " << expectBlock << " but file has " << b.size() << " bytes"; return e.str(); }
 	// binary-search order (strictly ascending, case-insensitive)
-	for (uint32_t k = 1; k < out.size(); ++k)
-		if (icmp(out[k - 1].name, out[k].name) >= 0) { e << "names '" << out[k - 1].name << "' and '" << out[k].name << "' not in ascending case-insensitive order"; return e.str(); }
-	// an actual binary search finds every member
-	for (uint32_t k = 0; k < out.size(); ++k) {
+	bool hiNames = false; { std::vector<std::string> listed; for (auto& en : out) { listed.push_back(en.name); if (has_high_byte(en.name)) hiNames = true; } std::string oe = order_consistent(listed); if (!oe.empty()) { e << oe; return e.str(); } }
+	// an actual binary search (bytes ranked unsigned; skipped when a name holds a byte >= 0x80, whose rank is the implementation's choice) finds every member
+	for (uint32_t k = 0; k < out.size() && !hiNames; ++k) {
 		std::string q = out[k].name;
 		for (auto& c : q) c = (c >= 'a' && c <= 'z') ? char(c - 32) : c;
 		size_t lo = 0, hi = out.size(); bool found = false;
